@@ -18,6 +18,8 @@ CLAIMED = {
          "MIR-driver rules: decision tables from discriminant switches and aggregates, trait-surface completeness, sibling agreement"),
  "C16": ("other", "Construction-site confinement with guard dominance for both types workspace-wide; recognisers shown equal to the specification's languages (token byte class from the compiler-evaluated table; rid regex literal language-equivalent to the specification regex by DFA product, group by group); validator acceptance shape; from_components dot pre-checks; routes and renderings. Regex-crate semantics trusted.", "4/C16",
          "MIR-driver rules: construction-site enumeration + guard dominance, evaluated static table, regex->DFA language equivalence"),
+ "C17": ("other", "Status and wire tables of ErrorCode against the specification; safe/unsafe partition decided by control dependence on the membership test with maps identified by the field they are stored in; propagated errors pass a constant empty safe list; encode() wiring by dataflow; scalar stringification visitor set exact; generated ErrorType impls of the instance joined with the IR (both configs) and the standard types checked for consistency.", "4/C17",
+         "MIR-driver rules: decision tables from discriminant switches, control dependence, dataflow, trait-surface exactness, IR join"),
 }
 NA = {
  "C11": "Content negotiation quantifies over parsed header lists and numeric q-values; its truth lives in comparator outcomes, not in the shape of the code. The structural clauses in reach are decided under C06/C04; a mirror of this implementation's iterator chain would be a brittle proxy (DESIGN.md section 4/C11).",
